@@ -106,6 +106,36 @@ def apply(toks, au, opts):
             out += _call("vx_sort", [[Tok("p", "&", ""), Tok("id", "mut", "")] + [_w(recv[0], " ")] + recv[1:]], ws0)
             i = k + 1
             continue
+        # X.windows(N).position(|w| w == P)  ->  vx_windows_position(X, N, P)     (std: index of the first window of length N equal to P)
+        if is_p(t, ".") and is_id(toks[i + 1], "windows") and is_p(toks[i + 2], "("):
+            k1 = match_close(toks, i + 2)
+            if is_p(toks[k1 + 1], ".") and is_id(toks[k1 + 2], "position") and is_p(toks[k1 + 3], "(") and is_p(toks[k1 + 4], "|") \
+                    and toks[k1 + 5].kind == "id" and is_p(toks[k1 + 6], "|") and toks[k1 + 7].text == toks[k1 + 5].text and is_p(toks[k1 + 8], "=") and is_p(toks[k1 + 9], "="):
+                k2 = match_close(toks, k1 + 3)
+                s_ = _expr_start(out)
+                recv = out[s_:]
+                ws0 = recv[0].ws
+                del out[s_:]
+                au.note("R", "X.windows(N).position(|w| w == P) -> vx_windows_position(X, N, P)")
+                out += _call("vx_windows_position", [[_w(recv[0], "")] + recv[1:], [x.copy() for x in toks[i + 3:k1]], [x.copy() for x in toks[k1 + 10:k2]]], ws0)
+                i = k2 + 1
+                continue
+        # E.map(|p| B)  on an Option  ->  (match E { Some(p) => Some(B), None => None })      (recipe opt optmap=1: the receiver is an Option)
+        if opts.get("optmap") and is_p(t, ".") and is_id(toks[i + 1], "map") and is_p(toks[i + 2], "(") and is_p(toks[i + 3], "|") and toks[i + 4].kind == "id" and is_p(toks[i + 5], "|"):
+            k = match_close(toks, i + 2)
+            s_ = _expr_start(out)
+            recv = out[s_:]
+            ws0 = recv[0].ws
+            del out[s_:]
+            au.note("R", "E.map(|p| B) on an Option -> match E { Some(p) => Some(B), None => None }")
+            body_ = [x.copy() for x in toks[i + 6:k]]
+            if body_:
+                body_[0].ws = " "
+            head = toks_of("(match")
+            head[0].ws = ws0
+            out += head + [_w(recv[0], " ")] + recv[1:] + toks_of(" { Some(" + toks[i + 4].text + ") => Some(") + body_ + toks_of("), None => None })")
+            i = k + 1
+            continue
         # X.is_some_and(|v| E)  ->  (match X { Some(v) => E, None => false })        X.is_none_or(|v| E) -> (match X { Some(v) => E, None => true })
         if is_p(t, ".") and toks[i + 1].kind == "id" and toks[i + 1].text in ("is_some_and", "is_none_or") and is_p(toks[i + 2], "(") and is_p(toks[i + 3], "|"):
             k = match_close(toks, i + 2)
